@@ -6,13 +6,16 @@
   (child process) is driven through its gRPC API while scripted executors answer, and every request's status,
   reply state, state afterwards and set of commanded tasks is compared with `Trans.run`.
 
-  The code departed from the property at seven corners. Four were repaired in /repo by three `fix:` commits
-  (notes/C02.fix-{1,2,3}.patch): `Cfg.code` is the code as it is (tied to the source by `C02_cfg_is_code` and by the
+  The code departed from the property at seven corners (eight with the lost verdict of an offers round, further down).
+  Repaired in /repo by `fix:` commits (notes/C02.fix-{1,2,3,5,6}.patch): the four corners of the task commands, the
+  workflow without a role (deploy_empty_workflow) and one of the two mechanisms of deploy_misses_active (the dropped
+  "root is ACTIVE" notification). `Cfg.code` is the code as it is (tied to the source by `C02_cfg_is_code` and by the
   differential runs), `Cfg.legacy` the code as it was. Each clause has its full-strength statement as a
   `def …_full (cfg) : Prop`; for the repaired corners it is PROVED for the code as it is (`…_code : …_full Cfg.code`),
   the former refutation `C02_finding_<id>` stays as a true statement about `Cfg.legacy`, and the `…_partial` theorem
-  (corner excluded by a decidable hypothesis, any configuration) stays. The three DEPLOY corners are still open:
-  full statement, refutation on a witness, `…_partial`.
+  (corner excluded by a decidable hypothesis, any configuration) stays. Two DEPLOY corners are still open — a
+  non-critical task that does not start, a TASK_RUNNING update that overtakes the roster: full statement, refutation
+  on a witness (about `Cfg.code`), `…_partial`.
 -/
 import ControlModel.Proofs.Transition
 import ControlModel.Proofs.DeployAttempts
@@ -25,11 +28,17 @@ open EnvM Trans
 /-- `Cfg.code` has a switch on exactly where the source has the repair: the single-response branch of BOTH
     transitionTasks and configureTasks asks `isCriticalTarget` (fix-1); transitionTasks returns nil for no task and
     ConfigureTransition.do waits on stateChangedCh only if it sent the message (fix-2); ControlEnvironment keeps the
-    transition's error apart from GO_ERROR's (fix-3). Reverting any of the three commits breaks this theorem. -/
+    transition's error apart from GO_ERROR's (fix-3); DeployTransition.do subscribes with a channel that has room for a
+    notification and its loop reads the workflow's status itself when woken, the status being stored before the
+    non-blocking notification is sent (fix-5); the loop is entered only if a task descriptor or a call role was asked to
+    become active (fix-6). Reverting any of the five commits breaks this theorem. -/
 theorem C02_cfg_is_code :
     Cfg.code = { singleUsesCritical := Gen.C02.singleBranchAsksCritical,
                  emptyIsSuccess := Gen.C02.transitionEmptyReturnsNil && Gen.C02.configureWaitsOnlyIfSent,
-                 keepTransitionError := Gen.C02.goErrorKeepsErr } := by decide
+                 keepTransitionError := Gen.C02.goErrorKeepsErr,
+                 deployKeepsNotification := decide (0 < Gen.C02.deployStatusChanCapacity) &&
+                   Gen.C02.deployLoopRereadsStatus && Gen.C02.statusStoredBeforeNotified,
+                 deployEmptyIsSuccess := Gen.C02.deployWaitsOnlyIfAwaited } := by decide
 
 /-- The events whose body commands the tasks. -/
 def commandEv (e : Ev) : Prop := e = .CONFIGURE ∨ e = .START_ACTIVITY ∨ e = .STOP_ACTIVITY ∨ e = .RESET
@@ -283,65 +292,131 @@ theorem C02_all_inactive_no_targets (ps : List (Task × Outcome)) (h : ∀ p ∈
 
 /-! ## DEPLOY -/
 
-def C02_deploy_iff_full : Prop :=
+/-- Full strength: DEPLOY succeeds iff every critical task became active — every workflow, every launch assignment,
+    wherever the loop is when the root becomes ACTIVE. -/
+def C02_deploy_iff_full (cfg : Cfg) : Prop :=
   ∀ (ls : List (Bool × Launch)) (calls : Nat) (lost : Bool),
-    deployBody ls calls lost = .ok ↔ allCriticalLaunched ls = true
+    deployBody cfg ls calls lost = .ok ↔ allCriticalLaunched ls = true
 
 /-- DEPLOY succeeds iff every critical task became active — provided the workflow has a role at all, no
     NON-critical task failed to start (the root status the loop waits for is the product over all roles), no
-    TASK_RUNNING update overtook the roster and the "ACTIVE" notification was not dropped. -/
-theorem C02_deploy_iff_partial (ls : List (Bool × Launch)) (calls : Nat) (lost : Bool)
+    TASK_RUNNING update overtook the roster and the loop was listening when the root became ACTIVE (for every
+    configuration, the code as it was included). -/
+theorem C02_deploy_iff_partial (cfg : Cfg) (ls : List (Bool × Launch)) (calls : Nat) (lost : Bool)
     (h0 : emptyWorkflow { calls := calls, tasks := ls } = false) (h1 : noncritLaunchFail ls = false)
     (h2 : earlyRunning ls = false) (h3 : lost = false) :
-    deployBody ls calls lost = .ok ↔ allCriticalLaunched ls = true := by
+    deployBody cfg ls calls lost = .ok ↔ allCriticalLaunched ls = true := by
   rw [deployBody_ok]
   have hne : ls ≠ [] ∨ calls ≠ 0 := by
     simp only [emptyWorkflow, Bool.and_eq_false_iff, List.isEmpty_eq_false_iff, decide_eq_false_iff_not] at h0
     exact h0
   simp only [allCriticalLaunched, List.all_eq_true, noncritLaunchFail, earlyRunning, List.any_eq_false] at h1 h2 ⊢
   constructor
-  · rintro ⟨_, _, hall⟩ l hl; simp [hall l hl, Launch.started]
+  · rintro (⟨_, hl, hc⟩ | ⟨_, _, hall⟩) l hl'
+    · subst hl; cases hl'
+    · simp [hall l hl', Launch.started]
   · intro h
-    refine ⟨h3, hne, fun l hl => ?_⟩
+    refine Or.inr ⟨by simp [Cfg.deployHears, h3], hne, fun l hl => ?_⟩
     have a := h l hl
     have b := h1 l hl
     have c := h2 l hl
     cases hc : l.1 <;> cases hl2 : l.2 <;> simp_all [Launch.started]
 
-/-- In full: a critical task that does not start (dies, stays staging, has no host) fails the DEPLOY. -/
-theorem C02_deploy_critical_needed (ls : List (Bool × Launch)) (calls : Nat) (lost : Bool)
-    (h : allCriticalLaunched ls = false) : deployBody ls calls lost ≠ .ok := by
-  rw [Ne, deployBody_ok]
-  rintro ⟨_, _, hall⟩
-  have : allCriticalLaunched ls = true := by
-    simp only [allCriticalLaunched, List.all_eq_true]; intro l hl; simp [hall l hl, Launch.started]
-  rw [this] at h; cases h
+/-- The code as it is: the same with only the two open corners excluded — also for a workflow without a role, and
+    wherever the loop is when the root becomes ACTIVE. -/
+theorem C02_deploy_iff_code_partial (ls : List (Bool × Launch)) (calls : Nat) (lost : Bool)
+    (h1 : noncritLaunchFail ls = false) (h2 : earlyRunning ls = false) :
+    deployBody Cfg.code ls calls lost = .ok ↔ allCriticalLaunched ls = true := by
+  rw [deployBody_ok]
+  simp only [allCriticalLaunched, List.all_eq_true, noncritLaunchFail, earlyRunning, List.any_eq_false] at h1 h2 ⊢
+  constructor
+  · rintro (⟨_, hl, hc⟩ | ⟨_, _, hall⟩) l hl'
+    · subst hl; cases hl'
+    · simp [hall l hl', Launch.started]
+  · intro h
+    by_cases hemp : ls = [] ∧ calls = 0
+    · exact Or.inl ⟨rfl, hemp.1, hemp.2⟩
+    · refine Or.inr ⟨by simp [Cfg.deployHears, Cfg.code], ?_, fun l hl => ?_⟩
+      · by_cases hls : ls = []
+        · exact Or.inr (fun hc => hemp ⟨hls, hc⟩)
+        · exact Or.inl hls
+      · have a := h l hl
+        have b := h1 l hl
+        have c := h2 l hl
+        cases hc : l.1 <;> cases hl2 : l.2 <;> simp_all [Launch.started]
 
-/-- finding `deploy_noncritical_blocks`: a non-critical task that does not start makes the DEPLOY fail. -/
-theorem C02_finding_deploy_noncritical_blocks : ¬ C02_deploy_iff_full := by
+/-- In full: a critical task that does not start (dies, stays staging, has no host) fails the DEPLOY. -/
+theorem C02_deploy_critical_needed (cfg : Cfg) (ls : List (Bool × Launch)) (calls : Nat) (lost : Bool)
+    (h : allCriticalLaunched ls = false) : deployBody cfg ls calls lost ≠ .ok := by
+  rw [Ne, deployBody_ok]
+  rintro (⟨_, hl, _⟩ | ⟨_, _, hall⟩)
+  · subst hl; simp [allCriticalLaunched] at h
+  · have : allCriticalLaunched ls = true := by
+      simp only [allCriticalLaunched, List.all_eq_true]; intro l hl; simp [hall l hl, Launch.started]
+    rw [this] at h; cases h
+
+/-- finding `deploy_noncritical_blocks` (open; about the code as it is): a non-critical task that does not start makes
+    the DEPLOY fail. -/
+theorem C02_finding_deploy_noncritical_blocks : ¬ C02_deploy_iff_full Cfg.code := by
   intro h
   have := h [(true, .ok), (false, .dies)] 0 false
   revert this; decide
 
-/-- finding `deploy_empty_workflow`: a workflow without roles cannot be deployed. -/
-theorem C02_finding_deploy_empty_workflow : ¬ C02_deploy_iff_full := by
-  intro h
-  have := h [] 0 false
-  revert this; decide
-
-/-- finding `deploy_misses_active` (a): a task that reports TASK_RUNNING before acquireTasks has entered it into the
-    roster never becomes ACTIVE for the core: the DEPLOY times out although every task started in time. -/
-theorem C02_finding_deploy_running_update_dropped : ¬ C02_deploy_iff_full := by
+/-- finding `deploy_misses_active` (open; about the code as it is): a task that reports TASK_RUNNING before acquireTasks
+    has entered it into the roster never becomes ACTIVE for the core: the DEPLOY times out although every task started
+    in time. -/
+theorem C02_finding_deploy_running_update_dropped : ¬ C02_deploy_iff_full Cfg.code := by
   intro h
   have := h [(true, .okEarly)] 0 false
   revert this; decide
 
-/-- finding `deploy_misses_active` (b): the non-blocking notification that the root became ACTIVE is dropped while the
-    loop is not at its receive: the DEPLOY times out although the workflow is ACTIVE. -/
-theorem C02_finding_deploy_notification_lost : ¬ C02_deploy_iff_full := by
-  intro h
-  have := h [(true, .ok)] 0 true
-  revert this; decide
+/-- Full strength: "a transition with nothing to command succeeds at once" for DEPLOY — a workflow without a task role
+    and without a call role is deployed, wherever the loop would be. -/
+def C02_deploy_empty_full (cfg : Cfg) : Prop := ∀ (lost : Bool), deployBody cfg [] 0 lost = .ok
+
+/-- The code as it is (since `fix: DEPLOY does not wait for a workflow that has nothing to deploy`). -/
+theorem C02_deploy_empty_code : C02_deploy_empty_full Cfg.code := by
+  intro lost; cases lost <;> decide
+
+/-- the former finding `deploy_empty_workflow` (repaired; a true statement about the code as it was): a workflow without
+    roles could not be deployed — nobody ever reports a status, the wait can only time out. -/
+theorem C02_finding_deploy_empty_workflow : ¬ C02_deploy_empty_full Cfg.legacy ∧ ¬ C02_deploy_iff_full Cfg.legacy := by
+  refine ⟨fun h => ?_, fun h => ?_⟩
+  · have := h false
+    revert this; decide
+  · have := h [] 0 false
+    revert this; decide
+
+/-- Full strength: what DEPLOY answers does not depend on where its loop is when the root becomes ACTIVE. -/
+def C02_deploy_heard_full (cfg : Cfg) : Prop :=
+  ∀ (ls : List (Bool × Launch)) (calls : Nat) (lost : Bool), deployBody cfg ls calls lost = deployBody cfg ls calls false
+
+/-- Any configuration whose hand-over keeps the notification. -/
+theorem C02_deploy_heard_of_kept (cfg : Cfg) (h : cfg.deployKeepsNotification = true) : C02_deploy_heard_full cfg := by
+  intro ls calls lost
+  simp [deployBody, Cfg.deployHears, h]
+
+/-- The code as it is (since `fix: DEPLOY cannot miss that the workflow became active`). -/
+theorem C02_deploy_heard_code : C02_deploy_heard_full Cfg.code := C02_deploy_heard_of_kept _ rfl
+
+/-- An ACTIVE root is reported by the code as it is, in every environment: every task up (and at least one role, or
+    none at all) ⇒ DEPLOYED. -/
+theorem C02_deploy_active_reported_code (ls : List (Bool × Launch)) (calls : Nat) (lost : Bool)
+    (h : ∀ l ∈ ls, l.2 = .ok) : deployBody Cfg.code ls calls lost = .ok := by
+  refine (C02_deploy_iff_code_partial ls calls lost ?_ ?_).2 ?_
+  · simp only [noncritLaunchFail, List.any_eq_false]; intro l hl; simp [h l hl, Launch.started]
+  · simp only [earlyRunning, List.any_eq_false]; intro l hl; simp [h l hl]
+  · simp only [allCriticalLaunched, List.all_eq_true]; intro l hl; simp [h l hl, Launch.started]
+
+/-- the former mechanism (b) of finding `deploy_misses_active` (repaired; a true statement about the code as it was):
+    the non-blocking notification that the root became ACTIVE was dropped while the loop was not at its receive: the
+    DEPLOY timed out although the workflow was ACTIVE. -/
+theorem C02_finding_deploy_notification_lost : ¬ C02_deploy_heard_full Cfg.legacy ∧ ¬ C02_deploy_iff_full Cfg.legacy := by
+  refine ⟨fun h => ?_, fun h => ?_⟩
+  · have := h [(true, .ok)] 0 true
+    revert this; decide
+  · have := h [(true, .ok)] 0 true
+    revert this; decide
 
 /-! ## the corners are exhaustive; outside the DEPLOY corners the Spec holds of the code as it is
 
@@ -553,15 +628,17 @@ theorem steps_named (steps : List SStep) : ∀ (env : Env) (tasks : List Task), 
 
 def tasks0 (wf : Workflow) : List Task := wf.tasks.map (fun t => { critical := t.1, active := t.2 = .ok })
 
-theorem deploy_ok_launched (ls : List (Bool × Launch)) (calls : Nat) (lost : Bool)
-    (h : deployBody ls calls lost = .ok) : allCriticalLaunched ls = true := by
+theorem deploy_ok_launched (cfg : Cfg) (ls : List (Bool × Launch)) (calls : Nat) (lost : Bool)
+    (h : deployBody cfg ls calls lost = .ok) : allCriticalLaunched ls = true := by
   cases ha : allCriticalLaunched ls
-  · exact absurd h (C02_deploy_critical_needed ls calls lost ha)
+  · exact absurd h (C02_deploy_critical_needed cfg ls calls lost ha)
   · rfl
 
-theorem deployBody_not_hang (ls : List (Bool × Launch)) (calls : Nat) (lost : Bool) :
-    deployBody ls calls lost ≠ .hang := by
-  unfold deployBody; split <;> simp
+theorem deployBody_not_hang (cfg : Cfg) (ls : List (Bool × Launch)) (calls : Nat) (lost : Bool) :
+    deployBody cfg ls calls lost ≠ .hang := by
+  unfold deployBody; split
+  · simp
+  · split <;> simp
 
 theorem new_env_ok (d : Env) (hd : d = (tryTransition ({} : Env) [] .DEPLOY true false).1) :
     (tryTransition d [] .CONFIGURE true false).1.pending = [] ∧
@@ -577,8 +654,8 @@ theorem create_named (wf : Workflow) (outs : List Outcome) :
     (∀ env tasks, (createEnvironment Cfg.legacy wf outs).2 = some (env, tasks) →
       env.pending = [] ∧ env.st = .CONFIGURED ∧ tasks = afterCommand (tasks0 wf) outs) := by
   unfold createEnvironment
-  cases hdep : deployBody wf.tasks wf.calls wf.notifyLost with
-  | hang => exact absurd hdep (deployBody_not_hang _ _ _)
+  cases hdep : deployBody Cfg.legacy wf.tasks wf.calls wf.notifyLost with
+  | hang => exact absurd hdep (deployBody_not_hang _ _ _ _)
   | error =>
     simp only
     refine ⟨?_, by intro _ _ h; cases h⟩
@@ -586,15 +663,15 @@ theorem create_named (wf : Workflow) (outs : List Outcome) :
     · simp [judgeNew, hl, Trans.reqOk, Named]
     · cases ha : allCriticalAcked (targets (pair (tasks0 wf) outs))
       · simp [judgeNew, hl, ha, Trans.reqOk, Named]
-      · -- every critical task started and would have acknowledged, yet DEPLOY failed: one of the three DEPLOY corners
+      · -- every critical task started and would have acknowledged, yet DEPLOY failed: one of the DEPLOY corners (four for the code as it was)
         cases h0 : emptyWorkflow wf <;> cases h2 : earlyRunning wf.tasks <;> cases h1 : noncritLaunchFail wf.tasks <;>
           cases h3 : wf.notifyLost <;>
           simp [judgeNew, hl, ha, Trans.reqOk, reached, Named, h0, h1, h2, h3]
-        have := (C02_deploy_iff_partial wf.tasks wf.calls wf.notifyLost h0 h1 h2 h3).2 hl
+        have := (C02_deploy_iff_partial Cfg.legacy wf.tasks wf.calls wf.notifyLost h0 h1 h2 h3).2 hl
         rw [hdep] at this; cases this
   | ok =>
     simp only
-    have hl := deploy_ok_launched _ _ _ hdep
+    have hl := deploy_ok_launched _ _ _ _ hdep
     have henv := new_env_ok _ rfl
     cases hb : configureBody Cfg.legacy (targets (pair (tasks0 wf) outs)) with
     | hang =>
@@ -649,7 +726,8 @@ theorem judge_cons (sc : Scenario) (o : Obs) (os : List Obs)
     · exact hos
     · exact named_none
 
-/-- About the code as it was: the seven recorded corners were EXHAUSTIVE — for every workflow, every outcome
+/-- About the code as it was: the recorded corners (seven findings, the two mechanisms of deploy_misses_active named
+    apart) were EXHAUSTIVE — for every workflow, every outcome
     assignment and every request sequence, whenever what the model of the legacy code does is rejected by Spec.C02, the
     scenario lies in one of the named corners (the verdict with all corners named is never the anonymous "-"). -/
 theorem C02_corners_exhaustive_legacy (sc : Scenario) : judgeAll sc (run Cfg.legacy sc) ≠ some "-" := by
@@ -772,11 +850,11 @@ theorem steps_code (steps : List SStep) : ∀ (env : Env) (tasks : List Task), e
 
 /-- No violation, or one inside an open DEPLOY corner. -/
 def DeployCorner (r : Option String) : Prop :=
-  r = none ∨ r = some "deploy_empty_workflow" ∨ r = some "deploy_misses_active" ∨ r = some "deploy_noncritical_blocks"
+  r = none ∨ r = some "deploy_misses_active" ∨ r = some "deploy_noncritical_blocks"
 
-/-- The scenario lies outside the three DEPLOY corners. -/
+/-- The scenario lies outside the two open DEPLOY corners. -/
 def NoDeployCorner (wf : Workflow) : Prop :=
-  emptyWorkflow wf = false ∧ noncritLaunchFail wf.tasks = false ∧ earlyRunning wf.tasks = false ∧ wf.notifyLost = false
+  noncritLaunchFail wf.tasks = false ∧ earlyRunning wf.tasks = false
 
 /-- What is shown of a verdict on the model of the code as it is. -/
 def CodeVerdict (wf : Workflow) (r : Option String) : Prop := DeployCorner r ∧ (NoDeployCorner wf → r = none)
@@ -788,36 +866,43 @@ theorem create_code (wf : Workflow) (outs : List Outcome) :
     (∀ env tasks, (createEnvironment Cfg.code wf outs).2 = some (env, tasks) →
       env.pending = [] ∧ env.st = .CONFIGURED ∧ tasks = afterCommand (tasks0 wf) outs) := by
   unfold createEnvironment
-  cases hdep : deployBody wf.tasks wf.calls wf.notifyLost with
-  | hang => exact absurd hdep (deployBody_not_hang _ _ _)
+  cases hdep : deployBody Cfg.code wf.tasks wf.calls wf.notifyLost with
+  | hang => exact absurd hdep (deployBody_not_hang _ _ _ _)
   | error =>
     simp only
     refine ⟨?_, by intro _ _ h; cases h⟩
+    generalize (deployAwaits wf.tasks wf.calls && wf.tasks.all (fun t => t.2 = .ok || t.2 = .okEarly) &&
+      decide (rootStatus wf.tasks wf.calls ≠ .ACTIVE)) = ra
+    generalize decide (rootStatus wf.tasks wf.calls = .ACTIVE) = au
     cases hl : allCriticalLaunched wf.tasks
     · have : judgeNew wf (targets (pair (tasks0 wf) outs))
-          { ev := none, rpc := .err, state := none, after := none, cmd := [],
-            runningAcked := (!wf.tasks.isEmpty || wf.calls != 0) && wf.tasks.all (fun t => t.2 = .ok || t.2 = .okEarly) } = none := by
+          { ev := none, rpc := .err, state := none, after := none, cmd := [], runningAcked := ra, activeUnseen := au } = none := by
         simp [judgeNew, hl, Trans.reqOk]
       rw [this]; exact codeVerdict_none wf
     · cases ha : allCriticalAcked (targets (pair (tasks0 wf) outs))
       · have : judgeNew wf (targets (pair (tasks0 wf) outs))
-            { ev := none, rpc := .err, state := none, after := none, cmd := [],
-              runningAcked := (!wf.tasks.isEmpty || wf.calls != 0) && wf.tasks.all (fun t => t.2 = .ok || t.2 = .okEarly) } = none := by
+            { ev := none, rpc := .err, state := none, after := none, cmd := [], runningAcked := ra, activeUnseen := au } = none := by
           simp [judgeNew, hl, ha, Trans.reqOk]
         rw [this]; exact codeVerdict_none wf
-      · -- every critical task started and would have acknowledged, yet DEPLOY failed: one of the three DEPLOY corners
+      · -- every critical task started and would have acknowledged, yet DEPLOY failed: one of the two open DEPLOY corners
         have hin : ¬ NoDeployCorner wf := by
-          rintro ⟨h0, h1, h2, h3⟩
-          have := (C02_deploy_iff_partial wf.tasks wf.calls wf.notifyLost h0 h1 h2 h3).2 hl
+          rintro ⟨h1, h2⟩
+          have := (C02_deploy_iff_code_partial wf.tasks wf.calls wf.notifyLost h1 h2).2 hl
           rw [hdep] at this; cases this
+        have h0 : emptyWorkflow wf = false := by
+          cases h0 : emptyWorkflow wf
+          · rfl
+          · exfalso; apply hin
+            have : wf.tasks = [] := by
+              simp only [emptyWorkflow, Bool.and_eq_true, List.isEmpty_iff] at h0; exact h0.1
+            simp [NoDeployCorner, this, noncritLaunchFail, earlyRunning]
         refine ⟨?_, fun h => absurd h hin⟩
-        cases h0 : emptyWorkflow wf <;> cases h2 : earlyRunning wf.tasks <;> cases h1 : noncritLaunchFail wf.tasks <;>
-          cases h3 : wf.notifyLost <;>
-          simp [judgeNew, hl, ha, Trans.reqOk, reached, DeployCorner, h0, h1, h2, h3]
-        exact absurd ⟨h0, h1, h2, h3⟩ hin
+        cases h2 : earlyRunning wf.tasks <;> cases h1 : noncritLaunchFail wf.tasks <;>
+          simp [judgeNew, hl, ha, Trans.reqOk, reached, DeployCorner, h0, h1, h2]
+        exact absurd ⟨h1, h2⟩ hin
   | ok =>
     simp only
-    have hl := deploy_ok_launched _ _ _ hdep
+    have hl := deploy_ok_launched _ _ _ _ hdep
     have henv := new_env_ok _ rfl
     have hiff := iff_code_ts .CONFIGURE (Or.inl rfl) (tasks0 wf) outs
     simp only [bodyFor] at hiff
@@ -899,32 +984,74 @@ theorem judge_of_none (sc : Scenario) (os : List Obs) (h : judgeAll sc os = none
 
 theorem judge_of_corner (sc : Scenario) (os : List Obs) (h : DeployCorner (judgeAll sc os)) :
     judge sc os = judgeAll sc os := by
-  rcases h with h | h | h | h <;> rw [judge, h] <;> decide
+  rcases h with h | h | h <;> rw [judge, h] <;> decide
 
-/-- The code as it is satisfies Spec.C02 on EVERY scenario whose workflow has a role, in which no non-critical task
-    fails to start, no TASK_RUNNING update overtakes the roster and the ACTIVE notification is not dropped (the three
-    DEPLOY corners, which stay open findings): every request sequence, every critical / active mix, every outcome
-    assignment, idle deaths included. -/
-theorem C02_spec_code (sc : Scenario) (h0 : emptyWorkflow sc.wf = false)
-    (h1 : noncritLaunchFail sc.wf.tasks = false) (h2 : earlyRunning sc.wf.tasks = false)
-    (h3 : sc.wf.notifyLost = false) :
+/-- The code as it is satisfies Spec.C02 on EVERY scenario in which no non-critical task fails to start and no
+    TASK_RUNNING update overtakes the roster (the two DEPLOY corners that stay open findings): every workflow — the one
+    without a role included —, every request sequence, every critical / active mix, every outcome assignment, idle deaths
+    included, and wherever the DEPLOY loop is when the root becomes ACTIVE (`sc.wf.notifyLost` is not constrained). -/
+theorem C02_spec_code (sc : Scenario)
+    (h1 : noncritLaunchFail sc.wf.tasks = false) (h2 : earlyRunning sc.wf.tasks = false) :
     judge sc (run Cfg.code sc) = none :=
-  judge_of_none sc _ ((code_verdict sc).2 ⟨h0, h1, h2, h3⟩)
+  judge_of_none sc _ ((code_verdict sc).2 ⟨h1, h2⟩)
 
 /-- …and on ALL scenarios nothing else is left: whenever Spec.C02 rejects what the model of the code as it is does,
-    the verdict names one of the three open DEPLOY corners. -/
+    the verdict names one of the two open DEPLOY corners. -/
 theorem C02_only_deploy_corners_code (sc : Scenario) (h : String) (hj : judge sc (run Cfg.code sc) = some h) :
-    h = "deploy_empty_workflow" ∨ h = "deploy_misses_active" ∨ h = "deploy_noncritical_blocks" := by
+    h = "deploy_misses_active" ∨ h = "deploy_noncritical_blocks" := by
   have hv := (code_verdict sc).1
   rw [judge_of_corner sc _ hv] at hj
-  rcases hv with hv | hv | hv | hv <;> rw [hv] at hj <;> simp at hj <;> simp [← hj]
+  rcases hv with hv | hv | hv <;> rw [hv] at hj <;> simp at hj <;> simp [← hj]
 
 /-- The open corners are EXHAUSTIVE for the code as it is: the verdict the correspondence harness computes is never the
     anonymous "-" on what the model does. With the correspondence run (model = implementation) this is what makes
-    "only KNOWN-FINDING lines" a complete account — and a return of one of the four repaired defects a plain violation. -/
+    "only KNOWN-FINDING lines" a complete account — and a return of one of the repaired defects a plain violation. -/
 theorem C02_corners_exhaustive (sc : Scenario) : judge sc (run Cfg.code sc) ≠ some "-" := by
   intro hj
-  rcases C02_only_deploy_corners_code sc "-" hj with h | h | h <;> revert h <;> decide
+  rcases C02_only_deploy_corners_code sc "-" hj with h | h <;> revert h <;> decide
+
+/-- The model of the code as it is never fails a DEPLOY with the root ACTIVE: the observation `active-unseen` (the core's
+    own time-out message lists no role that is not ACTIVE) is a disagreement with the model whenever it is seen. -/
+theorem C02_active_never_unseen_code (sc : Scenario) : ∀ o ∈ run Cfg.code sc, o.activeUnseen = false := by
+  have hcreate : (createEnvironment Cfg.code sc.wf sc.configure).1.activeUnseen = false := by
+    unfold createEnvironment
+    cases hdep : deployBody Cfg.code sc.wf.tasks sc.wf.calls sc.wf.notifyLost with
+    | ok => simp only; split <;> rfl
+    | hang => exact absurd hdep (deployBody_not_hang _ _ _ _)
+    | error =>
+      simp only [decide_eq_false_iff_not]
+      intro hact
+      have := (deployBody_ok Cfg.code sc.wf.tasks sc.wf.calls sc.wf.notifyLost).2
+        (Or.inr ⟨by simp [Cfg.deployHears, Cfg.code], (rootStatus_active _ _).1 hact⟩)
+      rw [hdep] at this; cases this
+  have hsteps : ∀ (steps : List SStep) (env : Env) (tasks : List Task), ∀ o ∈ runSteps Cfg.code env tasks steps,
+      o.activeUnseen = false := by
+    intro steps
+    induction steps with
+    | nil => intro env tasks o ho; simp [runSteps] at ho
+    | cons st rest ih =>
+      intro env tasks o ho
+      cases st with
+      | die outs => exact ih _ _ o (by simpa [runSteps] using ho)
+      | ctl e outs w ls =>
+        have hfirst : (controlStep Cfg.code env tasks e outs w ls).1.activeUnseen = false := by
+          unfold controlStep; simp only; split <;> rfl
+        simp only [runSteps] at ho
+        split at ho
+        · rcases List.mem_cons.1 ho with h | h
+          · rw [h]; exact hfirst
+          · exact ih _ _ o h
+        · rw [List.mem_singleton.1 ho]; exact hfirst
+  intro o ho
+  unfold run at ho
+  simp only at ho
+  split at ho
+  · split at ho
+    · rw [List.mem_singleton.1 ho]; exact hcreate
+    · rcases List.mem_cons.1 ho with h | h
+      · rw [h]; exact hcreate
+      · exact hsteps _ _ _ o h
+  · rw [List.mem_singleton.1 ho]; exact hcreate
 
 /-! ## executor / agent loss while a command is outstanding
 
@@ -1217,41 +1344,40 @@ theorem complete_not_missing (ds : List Desc) (r : Round) (h : complete ds r = t
   · rfl
   · rw [critMissing_incomplete ds r hm] at h; cases h
 
-/-- Full strength, per configuration of acquireTasks: a deployment whose offers come late — some attempt within the
-    limit finds every machine's offer after attempts that each left a critical task without one — is reported DEPLOYED,
-    every task coming up. In EVERY environment: whichever round is over before acquireTasks is at its receive. -/
-def C02_deploy_retry_full (acfg : AcqCfg) : Prop :=
+/-- Full strength, per configuration of acquireTasks and of the DEPLOY wait: a deployment whose offers come late — some
+    attempt within the limit finds every machine's offer after attempts that each left a critical task without one — is
+    reported DEPLOYED, every task coming up. In EVERY environment: whichever round is over before acquireTasks is at its
+    receive, and wherever the DEPLOY loop is when the root becomes ACTIVE. -/
+def C02_deploy_retry_full (acfg : AcqCfg) (cfg : Cfg) : Prop :=
   ∀ (w : OWorkflow) (i : Nat), i < attemptLimit →
     (∀ j, j < i → critMissing w.descs (w.rounds.getD j []) = true) →
     complete w.descs (w.rounds.getD i []) = true →
-    (∀ t ∈ w.tasks, t.launch = .ok) → w.tasks ≠ [] → w.notifyLost = false →
-    deployBody (w.eff (w.acquired acfg)).tasks w.calls w.notifyLost = .ok
+    (∀ t ∈ w.tasks, t.launch = .ok) → w.tasks ≠ [] →
+    deployBody cfg (w.eff (w.acquired acfg)).tasks w.calls w.notifyLost = .ok
 
-/-- The same with the excluding hypothesis: acquireTasks is at its receive whenever a verdict is handed over. -/
-def C02_deploy_retry_heard (acfg : AcqCfg) : Prop :=
+/-- The same with the excluding hypotheses: acquireTasks is at its receive whenever a verdict is handed over, and the
+    DEPLOY loop at its receive when the root becomes ACTIVE. -/
+def C02_deploy_retry_heard (acfg : AcqCfg) (cfg : Cfg) : Prop :=
   ∀ (w : OWorkflow) (i : Nat), w.notListening = none → i < attemptLimit →
     (∀ j, j < i → critMissing w.descs (w.rounds.getD j []) = true) →
     complete w.descs (w.rounds.getD i []) = true →
     (∀ t ∈ w.tasks, t.launch = .ok) → w.tasks ≠ [] → w.notifyLost = false →
-    deployBody (w.eff (w.acquired acfg)).tasks w.calls w.notifyLost = .ok
+    deployBody cfg (w.eff (w.acquired acfg)).tasks w.calls w.notifyLost = .ok
 
-/-- What both rest on: when acquireTasks does what it does with every verdict heard, the deployment is reported.
-    Whether the complete round is the first, the second or the third makes no difference. -/
-theorem deploy_retry_of_acquire (w : OWorkflow) (i : Nat) (hi : i < attemptLimit)
+/-- What both rest on: when acquireTasks does what it does with every verdict heard, and the DEPLOY loop hears of the
+    root becoming ACTIVE, the deployment is reported. Whether the complete round is the first, the second or the third
+    makes no difference. -/
+theorem deploy_retry_of_acquire (cfg : Cfg) (w : OWorkflow) (i : Nat) (hi : i < attemptLimit)
     (hfail : ∀ j, j < i → critMissing w.descs (w.rounds.getD j []) = true)
     (hcomplete : complete w.descs (w.rounds.getD i []) = true)
-    (hscripts : ∀ t ∈ w.tasks, t.launch = .ok) (hne : w.tasks ≠ []) (hl : w.notifyLost = false) :
-    deployBody (w.eff (acquire AcqCfg.code w.descs w.rounds)).tasks w.calls w.notifyLost = .ok := by
+    (hscripts : ∀ t ∈ w.tasks, t.launch = .ok) (hne : w.tasks ≠ []) (hl : cfg.deployHears w.notifyLost = true) :
+    deployBody cfg (w.eff (acquire AcqCfg.code w.descs w.rounds)).tasks w.calls w.notifyLost = .ok := by
   have hdne : w.descs ≠ [] := by
     intro h; apply hne; simpa [OWorkflow.descs] using h
   rw [C02_first_good_attempt_decides w.descs w.rounds hdne i hi hfail (complete_not_missing _ _ hcomplete)]
   rw [deployBody_ok]
-  refine ⟨hl, Or.inl ?_, ?_⟩
-  · intro h
-    apply hne
-    have : (indexed w.tasks).length = 0 := by simpa [OWorkflow.eff] using congrArg List.length h
-    rw [indexed_length] at this
-    exact List.length_eq_zero_iff.1 this
+  refine Or.inr ⟨hl, Or.inl ?_, ?_⟩
+  · exact eff_tasks_ne w _ hne
   · intro l hl'
     simp only [OWorkflow.eff, List.mem_map] at hl'
     obtain ⟨p, hp, rfl⟩ := hl'
@@ -1262,36 +1388,47 @@ theorem deploy_retry_of_acquire (w : OWorkflow) (i : Nat) (hi : i < attemptLimit
     simp only [effLaunch, hk, ↓reduceIte]
     exact hscripts p.2 hmem
 
-/-- The code as it is, at FULL strength (since `fix: acquireTasks cannot miss the verdict of its offers round`): a
-    deployment whose complete round is the first, second or third after failed ones is reported DEPLOYED, whichever
-    round is over before acquireTasks listens — the channel keeps the verdict. -/
-theorem C02_deploy_retry_code : C02_deploy_retry_full AcqCfg.code := by
-  intro w i hi hfail hcomplete hscripts hne hl
+/-- The code as it is, at FULL strength (since `fix: acquireTasks cannot miss the verdict of its offers round` and `fix:
+    DEPLOY cannot miss that the workflow became active`): a deployment whose complete round is the first, second or
+    third after failed ones is reported DEPLOYED, whichever round is over before acquireTasks listens and wherever the
+    DEPLOY loop is when the root becomes ACTIVE — both channels keep what they are handed. -/
+theorem C02_deploy_retry_code : C02_deploy_retry_full AcqCfg.code Cfg.code := by
+  intro w i hi hfail hcomplete hscripts hne
   rw [acquired_code]
-  exact deploy_retry_of_acquire w i hi hfail hcomplete hscripts hne hl
+  exact deploy_retry_of_acquire Cfg.code w i hi hfail hcomplete hscripts hne (by simp [Cfg.deployHears, Cfg.code])
 
-/-- The code as it was (unbuffered channel): it holds whenever acquireTasks is listening when a verdict is handed over. -/
-theorem C02_deploy_retry_partial : C02_deploy_retry_heard AcqCfg.legacy := by
+/-- The code as it was (unbuffered channels; any configuration of the rest): it holds whenever acquireTasks is listening
+    when a verdict is handed over and the DEPLOY loop when the root becomes ACTIVE. -/
+theorem C02_deploy_retry_partial (cfg : Cfg) : C02_deploy_retry_heard AcqCfg.legacy cfg := by
   intro w i hv hi hfail hcomplete hscripts hne hl
   have hacq : w.acquired AcqCfg.legacy = acquire AcqCfg.code w.descs w.rounds := by
     simp [OWorkflow.acquired, dropped_legacy, hv, acquire_legacy]
   rw [hacq]
-  exact deploy_retry_of_acquire w i hi hfail hcomplete hscripts hne hl
+  exact deploy_retry_of_acquire cfg w i hi hfail hcomplete hscripts hne (by simp [Cfg.deployHears, hl])
 
 /-- the former finding `deploy_verdict_lost` (repaired; a true statement about the code as it was): in full it is false
-    with the unbuffered channel. resourceOffers hands the verdict of a round to acquireTasks with a non-blocking send;
-    when the round is over before acquireTasks listens, the verdict is dropped: the tasks were launched and come up,
+    with the unbuffered verdict channel. resourceOffers hands the verdict of a round to acquireTasks with a non-blocking
+    send; when the round is over before acquireTasks listens, the verdict is dropped: the tasks were launched and come up,
     acquireTasks waits for ever (holding the deployment mutex), no role gets its task, DEPLOY times out. -/
-theorem C02_finding_deploy_verdict_lost : ¬ C02_deploy_retry_full AcqCfg.legacy := by
+theorem C02_finding_deploy_verdict_lost : ¬ C02_deploy_retry_full AcqCfg.legacy Cfg.code := by
   intro h
   have := h { calls := 0, tasks := [⟨true, .ok, 1⟩, ⟨false, .ok, 2⟩], rounds := [], notListening := some 0 } 0
-    (by decide) (by intro j hj; omega) (by decide) (by decide) (by decide) rfl
+    (by decide) (by intro j hj; omega) (by decide) (by decide) (by decide)
+  revert this; decide
+
+/-- …and it is false with the unbuffered status channel of the DEPLOY wait, whatever acquireTasks does: every task is
+    launched by the first attempt and comes up, every role is ACTIVE, and DEPLOY times out because the one notification
+    that said so found the loop elsewhere. -/
+theorem C02_retry_needs_kept_notification : ¬ C02_deploy_retry_full AcqCfg.code Cfg.legacy := by
+  intro h
+  have := h { calls := 0, tasks := [⟨true, .ok, 1⟩, ⟨false, .ok, 2⟩], rounds := [], notifyLost := true } 0
+    (by decide) (by intro j hj; omega) (by decide) (by decide) (by decide)
   revert this; decide
 
 /-- Without the reset at the head of the loop body it is false even when every verdict is heard (and the channel has
     room): a critical task whose machine is missing from the first round only is launched by the second attempt and comes
     up, yet the deployment is not reported (the flag is sticky, the launched task is detached, DEPLOY can only time out). -/
-theorem C02_retry_needs_reset : ¬ C02_deploy_retry_heard AcqCfg.sticky := by
+theorem C02_retry_needs_reset : ¬ C02_deploy_retry_heard AcqCfg.sticky Cfg.code := by
   intro h
   have := h { calls := 0, tasks := [⟨true, .ok, 1⟩, ⟨false, .ok, 2⟩], rounds := [[1]] } 1 rfl (by decide)
     (by intro j hj; have : j = 0 := by omega
@@ -1300,9 +1437,9 @@ theorem C02_retry_needs_reset : ¬ C02_deploy_retry_heard AcqCfg.sticky := by
   revert this; decide
 
 /-- The converse: when every attempt up to the limit leaves a critical descriptor without its offer, DEPLOY fails. -/
-theorem C02_deploy_exhausted_fails (w : OWorkflow)
+theorem C02_deploy_exhausted_fails (cfg : Cfg) (w : OWorkflow)
     (h : ∀ j, j < attemptLimit → critMissing w.descs (w.rounds.getD j []) = true) :
-    deployBody (w.eff (acquire AcqCfg.code w.descs w.rounds)).tasks w.calls w.notifyLost ≠ .ok := by
+    deployBody cfg (w.eff (acquire AcqCfg.code w.descs w.rounds)).tasks w.calls w.notifyLost ≠ .ok := by
   have hf := acquire_code_facts w.descs w.rounds
   have hnok : (acquire AcqCfg.code w.descs w.rounds).ok = false := by
     cases hok : (acquire AcqCfg.code w.descs w.rounds).ok
@@ -1310,7 +1447,7 @@ theorem C02_deploy_exhausted_fails (w : OWorkflow)
     · obtain ⟨i, hi, hc⟩ := hf.2.2.2.2.1 hok
       rw [h i hi] at hc; cases hc
   obtain ⟨hk, hu⟩ := hf.2.2.2.1 hnok
-  exact C02_deploy_critical_needed _ _ _ (eff_not_launched w _ _ hk hu)
+  exact C02_deploy_critical_needed _ _ _ _ (eff_not_launched w _ _ hk hu)
 
 /-- Conservative extension: with every round complete (and every role on a machine that exists) the first attempt
     launches everything and the DEPLOY wait sees the workflow exactly as the model without offers rounds has it. -/
@@ -1337,13 +1474,14 @@ theorem judgeAll_att (sc : Scenario) (o : Obs) (os : List Obs) (x : Option (List
     judgeAll sc ({ o with att := x } :: os) = judgeAll sc (o :: os) := rfl
 
 theorem run_deploy_fails (cfg : Cfg) (sc : Scenario)
-    (h : deployBody sc.wf.tasks sc.wf.calls sc.wf.notifyLost ≠ .ok) :
-    ∃ ra, run cfg sc = [{ ev := none, rpc := .err, state := none, after := none, cmd := [], runningAcked := ra }] := by
+    (h : deployBody cfg sc.wf.tasks sc.wf.calls sc.wf.notifyLost ≠ .ok) :
+    ∃ ra au, run cfg sc =
+      [{ ev := none, rpc := .err, state := none, after := none, cmd := [], runningAcked := ra, activeUnseen := au }] := by
   unfold run createEnvironment
-  cases hd : deployBody sc.wf.tasks sc.wf.calls sc.wf.notifyLost with
+  cases hd : deployBody cfg sc.wf.tasks sc.wf.calls sc.wf.notifyLost with
   | ok => exact absurd hd h
-  | error => exact ⟨_, rfl⟩
-  | hang => exact ⟨_, rfl⟩
+  | error => exact ⟨_, _, rfl⟩
+  | hang => exact ⟨_, _, rfl⟩
 
 theorem judge_att (sc : Scenario) (o : Obs) (os : List Obs) (x : Option (List (List Nat))) (y : Bool) :
     judge sc ({ o with att := x, verdictLost := y } :: os) = judge sc (o :: os) := rfl
@@ -1400,24 +1538,30 @@ theorem not_hung_not_lost (w : OWorkflow) (hh : w.hung AcqCfg.legacy = false) :
     omega
 
 /-- DEPLOY failed: the verdict on the lone NewEnvironment observation, whatever the workflow it is judged against. -/
-theorem judge_deploy_failed (sc : Scenario) (ra : Bool) (att : Option (List (List Nat))) (vl : Bool) :
-    let o : Obs := { ev := none, rpc := .err, state := none, after := none, cmd := [], runningAcked := ra, att := att,
-                     verdictLost := vl }
+theorem judge_deploy_failed (sc : Scenario) (ra au : Bool) (att : Option (List (List Nat))) (vl : Bool) :
+    let o : Obs := { ev := none, rpc := .err, state := none, after := none, cmd := [], runningAcked := ra,
+                     activeUnseen := au, att := att, verdictLost := vl }
     (allCriticalLaunched sc.wf.tasks = false → judge sc [o] = none) ∧
     (noncritLaunchFail sc.wf.tasks = true →
-      judge sc [o] = none ∨ judge sc [o] = some "deploy_empty_workflow" ∨ judge sc [o] = some "deploy_misses_active" ∨
+      judge sc [o] = none ∨ judge sc [o] = some "deploy_misses_active" ∨
       judge sc [o] = some "deploy_noncritical_blocks") := by
   intro o
   constructor
   · intro hl
     simp [judge, judgeAll, judgeNew, hl, Trans.reqOk, reached, o]
   · intro hn
+    have h0 : emptyWorkflow sc.wf = false := by
+      cases h0 : emptyWorkflow sc.wf
+      · rfl
+      · have : sc.wf.tasks = [] := by
+          simp only [emptyWorkflow, Bool.and_eq_true, List.isEmpty_iff] at h0; exact h0.1
+        rw [this] at hn; simp [noncritLaunchFail] at hn
     cases hl : allCriticalLaunched sc.wf.tasks
     · left; simp [judge, judgeAll, judgeNew, hl, Trans.reqOk, reached, o]
     · cases ha : allCriticalAcked (targets (pair (sc.wf.tasks.map (fun t => ({ critical := t.1, active := t.2 = .ok } : Task))) sc.configure))
       · left; simp [judge, judgeAll, judgeNew, hl, ha, Trans.reqOk, reached, o]
-      · cases h0 : emptyWorkflow sc.wf <;> cases h2 : earlyRunning sc.wf.tasks <;> cases h3 : sc.wf.notifyLost <;>
-          simp [judge, judgeAll, judgeNew, hl, ha, Trans.reqOk, reached, o, h0, h2, h3, hn, openCorner]
+      · cases h2 : earlyRunning sc.wf.tasks <;>
+          simp [judge, judgeAll, judgeNew, hl, ha, Trans.reqOk, reached, o, h0, h2, hn, openCorner]
 
 /-- `judgeO` of the model's run is `judge` of a plain run (the deployment was decided on a complete round), "no
     violation" (a critical task's machine was missing to the end), or a verdict inside the open DEPLOY corners with the
@@ -1428,8 +1572,7 @@ theorem judgeO_runO (sc : OScenario) :
     judgeO sc (runO AcqCfg.code Cfg.code sc) = judge off (run Cfg.code off) ∨
     judgeO sc (runO AcqCfg.code Cfg.code sc) = none ∨
     (noncritLaunchFail off.wf.tasks = true ∧
-      (judgeO sc (runO AcqCfg.code Cfg.code sc) = some "deploy_empty_workflow" ∨
-       judgeO sc (runO AcqCfg.code Cfg.code sc) = some "deploy_misses_active" ∨
+      (judgeO sc (runO AcqCfg.code Cfg.code sc) = some "deploy_misses_active" ∨
        judgeO sc (runO AcqCfg.code Cfg.code sc) = some "deploy_noncritical_blocks")) := by
   intro n off
   have hh : sc.wf.hung AcqCfg.code = false := hung_code sc.wf
@@ -1464,23 +1607,23 @@ theorem judgeO_runO (sc : OScenario) :
         have hk : (acquire AcqCfg.code sc.wf.descs sc.wf.rounds).kept = [] := by
           rw [ha]; exact roundOutcome_incomplete _ _ hc
         have hfailN := asOffered_noncrit_fail sc.wf n (by rw [hlast]; exact hc) (by rw [hlast]; exact hgood)
-        obtain ⟨ra, hrun⟩ := run_deploy_fails Cfg.code
+        obtain ⟨ra, au, hrun⟩ := run_deploy_fails Cfg.code
           { wf := sc.wf.eff (acquire AcqCfg.code sc.wf.descs sc.wf.rounds), configure := sc.configure, steps := sc.steps }
-          (eff_none_fails sc.wf _ hk hne)
-        have hj := (judge_deploy_failed off ra (some (acquire AcqCfg.code sc.wf.descs sc.wf.rounds).attempts) false).2 hfailN
+          (eff_none_fails Cfg.code sc.wf _ hk hne)
+        have hj := (judge_deploy_failed off ra au (some (acquire AcqCfg.code sc.wf.descs sc.wf.rounds).attempts) false).2 hfailN
         have hO : judgeO sc (runO AcqCfg.code Cfg.code sc) =
             judge off [{ ev := none, rpc := .err, state := none, after := none, cmd := [], runningAcked := ra,
+                         activeUnseen := au,
                          att := some (acquire AcqCfg.code sc.wf.descs sc.wf.rounds).attempts, verdictLost := false }] := by
           rw [runO_heard _ _ sc hh]
           simp only [hrun]
           rw [judgeO_cons sc _ _ _ rfl]
           rw [show (acquire AcqCfg.code sc.wf.descs sc.wf.rounds).attempts.length = n from rfl, hatt]
           rfl
-        rcases hj with hj | hj | hj | hj
+        rcases hj with hj | hj | hj
         · exact Or.inr (Or.inl (hO.trans hj))
         · exact Or.inr (Or.inr ⟨hfailN, Or.inl (hO.trans hj)⟩)
-        · exact Or.inr (Or.inr ⟨hfailN, Or.inr (Or.inl (hO.trans hj))⟩)
-        · exact Or.inr (Or.inr ⟨hfailN, Or.inr (Or.inr (hO.trans hj))⟩)
+        · exact Or.inr (Or.inr ⟨hfailN, Or.inr (hO.trans hj)⟩)
       · -- decided on a complete round: every role got its task
         left
         have hk : (acquire AcqCfg.code sc.wf.descs sc.wf.rounds).kept = List.range sc.wf.tasks.length := by
@@ -1505,10 +1648,10 @@ theorem judgeO_runO (sc : OScenario) :
       have hlast : lastRound sc.wf.rounds n = sc.wf.rounds.getD 2 [] := by simp [lastRound, hn, attemptLimit]
       have hk : (acquire AcqCfg.code sc.wf.descs sc.wf.rounds).kept = [] := by rw [ha]
       have hcm := asOffered_crit_missing sc.wf n (by rw [hlast]; exact hfail 2 (by decide))
-      obtain ⟨ra, hrun⟩ := run_deploy_fails Cfg.code
+      obtain ⟨ra, au, hrun⟩ := run_deploy_fails Cfg.code
         { wf := sc.wf.eff (acquire AcqCfg.code sc.wf.descs sc.wf.rounds), configure := sc.configure, steps := sc.steps }
-        (eff_none_fails sc.wf _ hk hne)
-      have hj := (judge_deploy_failed off ra (some (acquire AcqCfg.code sc.wf.descs sc.wf.rounds).attempts) false).1 hcm
+        (eff_none_fails Cfg.code sc.wf _ hk hne)
+      have hj := (judge_deploy_failed off ra au (some (acquire AcqCfg.code sc.wf.descs sc.wf.rounds).attempts) false).1 hcm
       rw [runO_heard _ _ sc hh]
       simp only [hrun]
       rw [judgeO_cons sc _ _ _ rfl]
@@ -1517,35 +1660,35 @@ theorem judgeO_runO (sc : OScenario) :
 
 /-- The code as it is satisfies Spec.C02 on EVERY scenario with offers rounds — every pattern of missing offers, every
     placement and critical mix (machines that no agent has included), every request sequence after the deployment,
-    whichever round is over before acquireTasks is at its receive — outside the three open DEPLOY corners, evaluated on
-    the workflow as offered in the last round that took place (a NON-critical task whose machine is missing from it is
-    "a non-critical task that did not start"). -/
+    whichever round is over before acquireTasks is at its receive, wherever the DEPLOY loop is when the root becomes
+    ACTIVE — outside the two open DEPLOY corners, evaluated on the workflow as offered in the last round that took place
+    (a NON-critical task whose machine is missing from it is "a non-critical task that did not start"). -/
 theorem C02_attempts_spec_code (sc : OScenario) :
     let wf := sc.wf.asOffered (acquire AcqCfg.code sc.wf.descs sc.wf.rounds).attempts.length
-    emptyWorkflow wf = false → noncritLaunchFail wf.tasks = false → earlyRunning wf.tasks = false →
-    wf.notifyLost = false → judgeO sc (runO AcqCfg.code Cfg.code sc) = none := by
-  intro wf h0 h1 h2 h3
+    noncritLaunchFail wf.tasks = false → earlyRunning wf.tasks = false →
+    judgeO sc (runO AcqCfg.code Cfg.code sc) = none := by
+  intro wf h1 h2
   rcases judgeO_runO sc with h | h | ⟨hn, _⟩
-  · rw [h]; exact C02_spec_code _ h0 h1 h2 h3
+  · rw [h]; exact C02_spec_code _ h1 h2
   · exact h
   · rw [show noncritLaunchFail wf.tasks = true from hn] at h1; cases h1
 
-/-- …and on ALL of them nothing else is left: a rejected run of the model of the code as it is lies in one of the three
-    open DEPLOY corners. (Before the repair of the hand-over a fourth class was left: `C02_attempts_only_open_corners_legacy`.) -/
+/-- …and on ALL of them nothing else is left: a rejected run of the model of the code as it is lies in one of the two
+    open DEPLOY corners. (Before the repair of the verdict's hand-over a further class was left:
+    `C02_attempts_only_open_corners_legacy`.) -/
 theorem C02_attempts_only_open_corners_code (sc : OScenario) (h : String)
     (hj : judgeO sc (runO AcqCfg.code Cfg.code sc) = some h) :
-    h = "deploy_empty_workflow" ∨ h = "deploy_misses_active" ∨ h = "deploy_noncritical_blocks" := by
-  rcases judgeO_runO sc with h' | h' | ⟨_, h' | h' | h'⟩
+    h = "deploy_misses_active" ∨ h = "deploy_noncritical_blocks" := by
+  rcases judgeO_runO sc with h' | h' | ⟨_, h' | h'⟩
   · rw [h'] at hj
     exact C02_only_deploy_corners_code _ h hj
   · rw [h'] at hj; cases hj
   · rw [h'] at hj; left; exact (Option.some.inj hj).symm
-  · rw [h'] at hj; right; left; exact (Option.some.inj hj).symm
-  · rw [h'] at hj; right; right; exact (Option.some.inj hj).symm
+  · rw [h'] at hj; right; exact (Option.some.inj hj).symm
 
 theorem C02_attempts_corners_exhaustive (sc : OScenario) : judgeO sc (runO AcqCfg.code Cfg.code sc) ≠ some "-" := by
   intro hj
-  rcases C02_attempts_only_open_corners_code sc "-" hj with h | h | h <;> revert h <;> decide
+  rcases C02_attempts_only_open_corners_code sc "-" hj with h | h <;> revert h <;> decide
 
 /-- Which round is over before acquireTasks listens is irrelevant for the code as it is: the run is the run of the
     scenario in which acquireTasks is always listening. -/
@@ -1561,11 +1704,10 @@ theorem runO_legacy_eq (cfg : Cfg) (sc : OScenario) (hh : sc.wf.hung AcqCfg.lega
   simp only [acquire_legacy]
 
 /-- The code as it was (unbuffered channel), analysed with the former corner named: a rejected run of its model lies in
-    one of the three open DEPLOY corners or is due to a lost verdict. -/
+    one of the two open DEPLOY corners or is due to a lost verdict. -/
 theorem C02_attempts_only_open_corners_legacy (sc : OScenario) (h : String)
     (hj : judgeOAll sc (runO AcqCfg.legacy Cfg.code sc) = some h) :
-    h = "deploy_empty_workflow" ∨ h = "deploy_misses_active" ∨ h = "deploy_noncritical_blocks" ∨
-    h = "deploy_verdict_lost" := by
+    h = "deploy_misses_active" ∨ h = "deploy_noncritical_blocks" ∨ h = "deploy_verdict_lost" := by
   cases hh : sc.wf.hung AcqCfg.legacy with
   | false =>
     rw [runO_legacy_eq _ sc hh] at hj
@@ -1579,12 +1721,11 @@ theorem C02_attempts_only_open_corners_legacy (sc : OScenario) (h : String)
         intro hj
         rw [judgeOAll_heard sc _ os _ rfl (not_hung_not_lost _ hh)] at hj
         exact hj
-    rcases C02_attempts_only_open_corners_code sc h hc with h | h | h
+    rcases C02_attempts_only_open_corners_code sc h hc with h | h
     · exact Or.inl h
     · exact Or.inr (Or.inl h)
-    · exact Or.inr (Or.inr (Or.inl h))
   | true =>
-    right; right; right
+    right; right
     -- the verdict of the last attempt made is lost: whatever is rejected is attributed to that
     unfold OWorkflow.hung at hh
     rw [dropped_legacy] at hh
@@ -1616,8 +1757,8 @@ theorem C02_attempts_only_open_corners_legacy (sc : OScenario) (h : String)
 
 /-- The code as it was: a lost verdict is never mistaken for a deployment — acquireTasks is still waiting, no role holds
     a task, DEPLOY fails (the destination is not reported), whatever was launched in that attempt. -/
-theorem C02_verdict_lost_never_reported (w : OWorkflow) (hne : w.tasks ≠ []) (hh : w.hung AcqCfg.legacy = true) :
-    deployBody (w.eff (w.acquired AcqCfg.legacy)).tasks w.calls w.notifyLost ≠ .ok := by
+theorem C02_verdict_lost_never_reported (cfg : Cfg) (w : OWorkflow) (hne : w.tasks ≠ []) (hh : w.hung AcqCfg.legacy = true) :
+    deployBody cfg (w.eff (w.acquired AcqCfg.legacy)).tasks w.calls w.notifyLost ≠ .ok := by
   unfold OWorkflow.hung at hh
   cases hv : w.dropped AcqCfg.legacy with
   | none => simp [hv] at hh
@@ -1625,7 +1766,7 @@ theorem C02_verdict_lost_never_reported (w : OWorkflow) (hne : w.tasks ≠ []) (
     simp only [hv, decide_eq_true_eq] at hh
     have hk : (w.acquired AcqCfg.legacy).kept = [] := by
       simp [OWorkflow.acquired, hv, acquireLost, hh]
-    exact eff_none_fails w _ hk hne
+    exact eff_none_fails cfg w _ hk hne
 
 /-! ## non-vacuity -/
 
@@ -1643,7 +1784,31 @@ example :
 
 example : emptyWorkflow { calls := 0, tasks := [(true, .ok), (false, .ok)] } = false ∧
     noncritLaunchFail [(true, .ok), (false, .ok)] = false ∧ earlyRunning [(true, .ok), (false, .ok)] = false ∧
-    deployBody [(true, .ok), (false, .ok)] 0 false = .ok := by decide
+    deployBody Cfg.code [(true, .ok), (false, .ok)] 0 false = .ok ∧
+    deployBody Cfg.legacy [(true, .ok), (false, .ok)] 0 false = .ok := by decide
+
+/-- The two DEPLOY repairs, on whole scenarios. The loop is elsewhere when the root becomes ACTIVE: the code as it is
+    reports CONFIGURED and goes on, the code as it was failed with every role ACTIVE (`activeUnseen`), and that
+    observation judged for the code as it is is a violation outside every open corner. A workflow without a role: the
+    code as it is walks through every transition at once, the code as it was could not deploy it. -/
+example :
+    (run Cfg.code { wf := { calls := 1, tasks := [(true, .ok), (false, .ok)], notifyLost := true }, configure := [.ok, .ok],
+                    steps := [.ctl .START_ACTIVITY [.ok, .ok] false []] }).map (fun o => (o.rpc, o.state)) =
+      [(.ok, some .CONFIGURED), (.ok, some .RUNNING)] ∧
+    run Cfg.legacy { wf := { calls := 1, tasks := [(true, .ok), (false, .ok)], notifyLost := true }, configure := [.ok, .ok],
+                     steps := [.ctl .START_ACTIVITY [.ok, .ok] false []] } =
+      [{ ev := none, rpc := .err, state := none, after := none, cmd := [], activeUnseen := true }] ∧
+    judge { wf := { calls := 1, tasks := [(true, .ok), (false, .ok)] }, configure := [.ok, .ok], steps := [] }
+      [{ ev := none, rpc := .err, state := none, after := none, cmd := [], activeUnseen := true }] = some "-" ∧
+    (run Cfg.code { wf := { calls := 0, tasks := [] }, configure := [],
+                    steps := [.ctl .START_ACTIVITY [] false [], .ctl .STOP_ACTIVITY [] false [], .ctl .RESET [] false []] }).map
+        (fun o => (o.rpc, o.state)) =
+      [(.ok, some .CONFIGURED), (.ok, some .RUNNING), (.ok, some .CONFIGURED), (.ok, some .DEPLOYED)] ∧
+    run Cfg.legacy { wf := { calls := 0, tasks := [] }, configure := [], steps := [] } =
+      [{ ev := none, rpc := .err, state := none, after := none, cmd := [] }] ∧
+    judge { wf := { calls := 0, tasks := [] }, configure := [], steps := [] }
+      [{ ev := none, rpc := .err, state := none, after := none, cmd := [] }] = some "-" := by
+  decide
 
 /-- Executor loss inside a command, on the model of the code as it is: the critical task answers START with an error,
     its executor is lost while the co-target is still working, the co-target then answers ok — the request fails, the
@@ -1910,18 +2075,17 @@ theorem judgeOT_code (sc : OTScenario) :
       judgeO (sc.settle allowed) (runO AcqCfg.code Cfg.code (sc.settle allowed)) := by
   rw [judgeOT, judgeDl, runOT, deadlinesOk_code, obs_withDeadlines, deadline_code_allowed]; rfl
 
-/-- The code as it is satisfies Spec.C02 on EVERY scenario with timed outcomes outside the three open DEPLOY corners:
+/-- The code as it is satisfies Spec.C02 on EVERY scenario with timed outcomes outside the two open DEPLOY corners:
     every request sequence, every outcome AND delay assignment (answers just inside and just outside the time allowed
     included), and every commanded target is given exactly the time its transition allows. -/
-theorem C02_spec_code_timed (sc : TScenario) (h0 : emptyWorkflow sc.wf = false)
-    (h1 : noncritLaunchFail sc.wf.tasks = false) (h2 : earlyRunning sc.wf.tasks = false)
-    (h3 : sc.wf.notifyLost = false) :
+theorem C02_spec_code_timed (sc : TScenario)
+    (h1 : noncritLaunchFail sc.wf.tasks = false) (h2 : earlyRunning sc.wf.tasks = false) :
     judgeT sc (runT DlCfg.code Cfg.code sc) = none := by
-  rw [judgeT_code]; exact C02_spec_code _ h0 h1 h2 h3
+  rw [judgeT_code]; exact C02_spec_code _ h1 h2
 
 theorem C02_only_deploy_corners_code_timed (sc : TScenario) (h : String)
     (hj : judgeT sc (runT DlCfg.code Cfg.code sc) = some h) :
-    h = "deploy_empty_workflow" ∨ h = "deploy_misses_active" ∨ h = "deploy_noncritical_blocks" := by
+    h = "deploy_misses_active" ∨ h = "deploy_noncritical_blocks" := by
   rw [judgeT_code] at hj; exact C02_only_deploy_corners_code _ h hj
 
 /-- The verdict the harness computes on what the model does with a timed scenario is never the anonymous "-". -/
